@@ -113,7 +113,12 @@ class HashFileDB(ObjectDB):
                 if verify:
                     self.check(o, check_hash=True)
                 self.protect(cache_path)
-            except (ObjectFormatError, FileNotFoundError):
+            except ObjectFormatError as exc:
+                # the object did not match its oid and was removed by check()
+                if on_error is not None:
+                    on_error(o, exc)
+                    transferred = max(transferred - 1, 0)
+            except FileNotFoundError:
                 pass
 
         self.state.save_many(
